@@ -165,6 +165,8 @@ pub fn evaluate_step(salt : &str, outs : &[OutSpec], inputs : &[(String, bool, O
                     let k : usize = rest.split_whitespace().next().unwrap_or("0").parse().unwrap_or(0);
                     if k == step_index { return StepResult { code : 1, writes : vec![], skipped : vec![] }; }
                 }
+                // "!FAILSIG ..." : the command is killed by a signal (no exit code at all)
+                else if c.starts_with(b"!FAILSIG") { return StepResult { code : -9, writes : vec![], skipped : vec![] }; }
                 else if c.starts_with(b"!FAIL") { return StepResult { code : 1, writes : vec![], skipped : vec![] }; }
             },
         }
@@ -232,7 +234,8 @@ fn parse_outspec(token : &str) -> Option<OutSpec>
 
 fn output(code : i32, err : &str) -> CommandLineOutput
 {
-    CommandLineOutput { out : "".to_string(), err : err.to_string(), code : Some(code), success : code == 0 }
+    // a negative code stands for "terminated by a signal": the process reports no exit code
+    CommandLineOutput { out : "".to_string(), err : err.to_string(), code : if code < 0 { None } else { Some(code) }, success : code == 0 }
 }
 
 /* The interpreter: executes one script line against VSys, as a separate process would. */
